@@ -26,35 +26,165 @@
   theorem.
 -/
 import Pfb.C05.Lemmas
+import Pfb.C05.LemmasD
+import Pfb.C05.LemmasE
+import Pfb.C05.LemmasF
+import Pfb.C05.Unused
+import Pfb.C05.UnusedC
 namespace Pfb.C05
 open Pfb Pfb.PyCore
 
-/-- **C05_sound_fragA.**  For the unchanged code (`fx = {}`) and for the code with any of the proposed repairs:
-    for every program of fragment A, every registry, builtins scope, caller namespaces and
-    every initial run-time state that binds exactly the names bound in those namespaces: every global name whose
-    lookup raises NameError in the reference run is reported by `findMissing`. -/
+/-- **C05_sound_fragB.**  For the unchanged code (`fx = {}`) and for the code with any of the proposed repairs, for every
+    program of fragment B (fragment A + `import m`, `import m as a`, `import a.b.c`, `from m import x [as y]`
+    + dotted reads `a.b.c` when `D = true`), every registry, builtins scope, caller namespaces (with dot-free keys
+    when dotted names occur) and every initial run-time state that binds exactly the names bound in those namespaces:
+    every global name whose lookup raises NameError in the reference run is the head of a name reported by `findMissing`.
+    With `D = false` the reported name is the NameError'd name itself. -/
+theorem C05_sound_fragB (fx : Fixes) (reg : Registry) (builtins : Scope) (ns : List Scope) (prog : List Stmt)
+    (s0 : XState) (fuel : Nat) (D : Bool) (hfr : fragB D prog = true) (hag : Agree builtins ns s0)
+    (hdf : D = true → nsDotFree builtins ns = true) :
+    ∀ n ∈ (runProgram fuel prog [] s0).1.ne,
+      ∃ d ∈ findMissingFx fx reg builtins ns prog, headOf d = n ∧ (D = false → d = n) := by
+  intro n hn
+  rw [runProgram_ne] at hn
+  obtain ⟨m, hm, hmn⟩ :=
+    (stmtsB fx reg D prog fuel s0 (initState builtins ns) 0 hfr (corr_init D builtins ns s0 hag hdf)).1 n hn
+  refine ⟨m.name, ?_, hmn⟩
+  unfold findMissingFx analyzeFx
+  rw [mem_sortedSet, List.mem_map]
+  exact ⟨m, finishDeferred_mono reg _ m hm, rfl⟩
+
+/-- **C05_precise_fragB.**  On fragment B without conditional expressions and `__all__`, if the reference run completes
+    (every read was executed and succeeded) nothing is reported — provided, when dotted names occur, that no value
+    of the caller's namespaces is a registry (`sys.modules`) entry and `None` is not one (`regDisjoint`; otherwise
+    the analysis follows attributes through the registry, which the run-time state of the theorem does not constrain). -/
+theorem C05_precise_fragB (fx : Fixes) (reg : Registry) (builtins : Scope) (ns : List Scope) (prog : List Stmt)
+    (s0 : XState) (fuel : Nat) (D : Bool) (hfr : fragB D prog = true) (hpl : prog.all plainStmtB = true)
+    (hag : Agree builtins ns s0) (hdf : D = true → nsDotFree builtins ns = true)
+    (hrd : D = true → regDisjoint reg builtins ns = true)
+    (hok : (runProgram fuel prog [] s0).2 = .ok ()) :
+    findMissingFx fx reg builtins ns prog = [] := by
+  obtain ⟨fl, hfl⟩ := runProgram_ok fuel prog s0 hok
+  obtain ⟨_, _, hp⟩ :=
+    (stmtsB fx reg D prog fuel s0 (initState builtins ns) 0 hfr (corr_init D builtins ns s0 hag hdf)).2 fl hfl
+  obtain ⟨hm, hd⟩ := hp hpl (fun hD => RD_init reg builtins ns hag.noClass (hrd hD))
+  unfold findMissingFx analyzeFx
+  rw [finishDeferred_nil reg _ (by rw [hd]; rfl), hm]
+  rfl
+
+/-- **C05_sound_fragC.**  Fragment C = fragment B + module-level `def f(p1, …, pk): <straight-line body>` (expression
+    statements, single-name assignments, `pass`, `return`), the functions being called only by the statements `calls`
+    (`g(e1, …, ek)` with fragment-B arguments) that follow the last module-level statement.  The loads inside the bodies
+    go through the deferred mechanism (`_visit_Load_defered` twice, `clone_top`, `_finish_deferred_load_checks`).
+    Every global name whose lookup raises NameError anywhere in the run — at module level, in an argument of a call, or
+    inside a called function body — is the head of a name reported by `findMissing` for the whole source.
+    Extra hypotheses w.r.t. fragment B: the builtins namespace is not a class scope and the run starts without
+    pre-existing function objects. -/
+theorem C05_sound_fragC (fx : Fixes) (reg : Registry) (builtins : Scope) (ns : List Scope) (prog calls : List Stmt)
+    (s0 : XState) (fuel : Nat) (D : Bool) (hfr : fragC D prog = true) (hcalls : calls.all (fragCall D) = true)
+    (hag : Agree builtins ns s0) (hdf : D = true → nsDotFree builtins ns = true)
+    (hb : builtins.isClass = false) (hf : s0.funcs = []) :
+    ∀ n ∈ (runProgram fuel prog calls s0).1.ne,
+      ∃ d ∈ findMissingFx fx reg builtins ns (prog ++ calls), headOf d = n ∧ (D = false → d = n) := by
+  intro n hn
+  obtain ⟨m, hm, hmn⟩ := sound_fragC fx reg D prog calls fuel s0 (initState builtins ns) hfr hcalls
+    (corrC_init D builtins ns s0 hag hdf hb hf) n hn
+  refine ⟨m.name, ?_, hmn⟩
+  unfold findMissingFx analyzeFx
+  rw [mem_sortedSet, List.mem_map]
+  exact ⟨m, hm, rfl⟩
+
+/-- **C05_precise_fragC.**  On fragment C without conditional expressions at module level and in call arguments and
+    without `__all__`, if the reference run completes, then every reported name is read by the body of some function
+    defined by the program, and its head is bound neither in the globals nor in the builtins when the run ends (so a
+    call of that function after the module has run would — if it reaches the read, and unless the name is assigned
+    earlier in the body — raise NameError).  In particular nothing is reported for module-level reads, call arguments
+    or reads in function bodies that the final globals resolve. -/
+theorem C05_precise_fragC (fx : Fixes) (reg : Registry) (builtins : Scope) (ns : List Scope) (prog calls : List Stmt)
+    (s0 : XState) (fuel : Nat) (D : Bool) (hfr : fragC D prog = true) (hpl : prog.all plainStmtB = true)
+    (hcalls : calls.all (fragCall D) = true) (hplc : calls.all plainCall = true)
+    (hag : Agree builtins ns s0) (hdf : D = true → nsDotFree builtins ns = true)
+    (hrd : D = true → regDisjoint reg builtins ns = true)
+    (hb : builtins.isClass = false) (hf : s0.funcs = [])
+    (hok : (runProgram fuel prog calls s0).2 = .ok ()) :
+    ∀ d ∈ findMissingFx fx reg builtins ns (prog ++ calls),
+      ∃ ps body, defClosure ps body ∈ (runProgram fuel prog calls s0).1.funcs ∧ d ∈ bodyLoads body ∧
+        unboundX (runProgram fuel prog calls s0).1 (headOf d) := by
+  intro d hd
+  unfold findMissingFx analyzeFx at hd
+  rw [mem_sortedSet, List.mem_map] at hd
+  obtain ⟨m, hm, rfl⟩ := hd
+  exact precise_fragC fx reg D prog calls fuel s0 (initState builtins ns) hfr hpl hcalls hplc
+    (corrC_init D builtins ns s0 hag hdf hb hf) (plainInv_init D reg builtins ns s0 hag.noClass hrd) hok m hm
+
+/-- **C05_sound_fragE.**  Fragment E = fragment B + `del x` + `x += e` (plain-name targets) at module level.  Hypotheses
+    beyond fragment B, all decidable:
+    * `delBound [] prog`: every `del x` deletes a name that the program itself bound before and has not deleted since
+      (otherwise the `del` raises NameError, and `visit_Delete` never loads its target: `witness_del_unbound`);
+    * the deleted names are bound neither in the initial globals nor in a caller namespace (the analysis never writes to
+      caller namespaces: `witness_del_caller_ns`);
+    * an augmented assignment needs the repair that loads the target first (`fx.augLoad`; unchanged tree: `witness_c`);
+    * with dotted names, `del` must also drop the dotted keys below the name (`fx.delDotted`; before 1b2307d:
+      `witness_del_dotted`). -/
+theorem C05_sound_fragE (fx : Fixes) (reg : Registry) (builtins : Scope) (ns : List Scope) (prog : List Stmt)
+    (s0 : XState) (fuel : Nat) (D : Bool) (hfr : fragE D prog = true) (hdb : delBound [] prog = true)
+    (hag : Agree builtins ns s0) (hdf : D = true → nsDotFree builtins ns = true)
+    (hfresh : ∀ x ∈ delNames prog, assocGet x s0.globals = none ∧ ∀ sc ∈ ns, boundIn sc x = false)
+    (haug : hasAug prog = true → fx.augLoad = true) (hdd : D = true → hasDel prog = true → fx.delDotted = true) :
+    ∀ n ∈ (runProgram fuel prog [] s0).1.ne,
+      ∃ d ∈ findMissingFx fx reg builtins ns prog, headOf d = n ∧ (D = false → d = n) := by
+  intro n hn
+  rw [runProgram_ne] at hn
+  have hc := corrE_init D (delNames prog) builtins ns s0 hag hdf (delNames_simple prog hfr) hfresh
+  obtain ⟨m, hm, hmn⟩ :=
+    (stmtsE fx reg D (delNames prog) prog fuel s0 (initState builtins ns) 0 [] hfr hdb (fun _ h => h) haug hdd hc).1 n hn
+  refine ⟨m.name, ?_, hmn⟩
+  unfold findMissingFx analyzeFx
+  rw [mem_sortedSet, List.mem_map]
+  exact ⟨m, finishDeferred_mono reg _ m hm, rfl⟩
+
+/-- **C05_precise_fragE.**  Same fragment and hypotheses, no conditional expression and no `__all__`: if the run
+    completes, nothing is reported. -/
+theorem C05_precise_fragE (fx : Fixes) (reg : Registry) (builtins : Scope) (ns : List Scope) (prog : List Stmt)
+    (s0 : XState) (fuel : Nat) (D : Bool) (hfr : fragE D prog = true) (hdb : delBound [] prog = true)
+    (hpl : prog.all plainStmtE = true)
+    (hag : Agree builtins ns s0) (hdf : D = true → nsDotFree builtins ns = true)
+    (hrd : D = true → regDisjoint reg builtins ns = true)
+    (hfresh : ∀ x ∈ delNames prog, assocGet x s0.globals = none ∧ ∀ sc ∈ ns, boundIn sc x = false)
+    (haug : hasAug prog = true → fx.augLoad = true) (hdd : D = true → hasDel prog = true → fx.delDotted = true)
+    (hok : (runProgram fuel prog [] s0).2 = .ok ()) :
+    findMissingFx fx reg builtins ns prog = [] := by
+  obtain ⟨fl, hfl⟩ := runProgram_ok fuel prog s0 hok
+  have hc := corrE_init D (delNames prog) builtins ns s0 hag hdf (delNames_simple prog hfr) hfresh
+  obtain ⟨_, hp⟩ :=
+    (stmtsE fx reg D (delNames prog) prog fuel s0 (initState builtins ns) 0 [] hfr hdb (fun _ h => h) haug hdd hc).2.2 fl hfl
+  obtain ⟨hm, hd⟩ := hp hpl (fun hD => RD_init reg builtins ns hag.noClass (hrd hD))
+  unfold findMissingFx analyzeFx
+  rw [finishDeferred_nil reg _ (by rw [hd]; rfl), hm]
+  rfl
+
+/-- fragment B is the part of fragment C without function definitions -/
+theorem fragB_C {D : Bool} {prog : List Stmt} (h : fragB D prog = true) : fragC D prog = true := by
+  simp only [fragB, fragC, List.all_eq_true] at h ⊢
+  intro s hs
+  simp [fragCStmt, h s hs]
+
+/-- **C05_sound_fragA** (corollary of `C05_sound_fragB` with `D = false`): straight-line module-level code. -/
 theorem C05_sound_fragA (fx : Fixes) (reg : Registry) (builtins : Scope) (ns : List Scope) (prog : List Stmt)
     (s0 : XState) (fuel : Nat) (hfr : fragA prog = true) (hag : Agree builtins ns s0) :
     ∀ n ∈ (runProgram fuel prog [] s0).1.ne, n ∈ findMissingFx fx reg builtins ns prog := by
   intro n hn
-  rw [runProgram_ne] at hn
-  obtain ⟨m, hm, hmn⟩ := (stmtsA fx reg prog fuel s0 (initState builtins ns) 0 hfr (corr_init builtins ns s0 hag)).1 n hn
-  unfold findMissingFx analyzeFx
-  rw [mem_sortedSet, List.mem_map]
-  exact ⟨m, finishDeferred_mono reg _ m hm, hmn⟩
+  obtain ⟨d, hd, _, hdn⟩ := C05_sound_fragB fx reg builtins ns prog s0 fuel false (fragA_B hfr) hag (fun h => by cases h) n hn
+  rw [← hdn rfl]; exact hd
 
-/-- **C05_precise_fragA.**  On fragment A without conditional expressions and without `__all__`, if the reference
-    run completes (so every read was executed and succeeded) then nothing is reported. -/
+/-- **C05_precise_fragA** (corollary of `C05_precise_fragB` with `D = false`). -/
 theorem C05_precise_fragA (fx : Fixes) (reg : Registry) (builtins : Scope) (ns : List Scope) (prog : List Stmt)
     (s0 : XState) (fuel : Nat) (hfr : fragA prog = true) (hpl : prog.all plainStmt = true) (hag : Agree builtins ns s0)
     (hok : (runProgram fuel prog [] s0).2 = .ok ()) :
-    findMissingFx fx reg builtins ns prog = [] := by
-  obtain ⟨fl, hfl⟩ := runProgram_ok fuel prog s0 hok
-  obtain ⟨_, hp⟩ := (stmtsA fx reg prog fuel s0 (initState builtins ns) 0 hfr (corr_init builtins ns s0 hag)).2 fl hfl
-  obtain ⟨hm, hd⟩ := hp hpl
-  unfold findMissingFx analyzeFx
-  rw [finishDeferred_nil reg _ (by rw [hd]; rfl), hm]
-  rfl
+    findMissingFx fx reg builtins ns prog = [] :=
+  C05_precise_fragB fx reg builtins ns prog s0 fuel false (fragA_B hfr)
+    (by simp only [List.all_eq_true] at hpl ⊢; exact fun s hs => by rw [← plainStmt_B]; exact hpl s hs)
+    hag (fun h => by cases h) (fun h => by cases h) hok
 
 /-! ### canonical initial state -/
 
@@ -113,6 +243,62 @@ example : (runProgram 100 exProg [] (mkState exBuiltins exNs)).1.ne = ["zz".toLi
 example : findMissing {} exBuiltins exNs exProg = ["q".toList, "zz".toList] := by decide
 example : isOk (runProgram 100 (exProg.take 1) [] (mkState exBuiltins exNs)).2 = true := by decide
 example : findMissing {} exBuiltins exNs (exProg.take 1) = [] := by decide
+
+/-- fragment B, step (i): `import pa.s1` ; `x = pa.s1.m1` ; `from pa import m2 as y` ; `z = (y, q.u)` -/
+def exProgB : List Stmt :=
+  [.located 1 (.import_ [⟨"pa.s1".toList, none⟩]),
+   .located 2 (.assign [.name "x".toList] (.attr (.attr (.name "pa".toList) "s1".toList) "m1".toList)),
+   .located 3 (.importFrom "pa".toList [⟨"m2".toList, some "y".toList⟩]),
+   .located 4 (.assign [.name "z".toList] (.tuple [.name "y".toList, .attr (.name "q".toList) "u".toList]))]
+example : fragB true exProgB = true := by decide
+example : nsDotFree exBuiltins exNs = true := by decide
+example : regDisjoint {} exBuiltins exNs = true := by decide
+example : (runProgram 100 exProgB [] (mkState exBuiltins exNs)).1.ne = ["q".toList] := by decide +kernel
+example : findMissing {} exBuiltins exNs exProgB = ["q.u".toList] := by decide
+example : isOk (runProgram 100 (exProgB.take 3) [] (mkState exBuiltins exNs)).2 = true := by decide +kernel
+example : (exProgB.take 3).all plainStmtB = true := by decide
+example : findMissing {} exBuiltins exNs (exProgB.take 3) = [] := by decide
+
+/-- fragment C: `import pa` ; `def f(a):` / ` t = pa.m1` / ` return (t, late, zz, a)` ; `late = _K` — and, after the
+    last module-level statement, the call `f(late)`.  `pa` and `late` are looked up when `f` runs (`late` is bound after
+    the `def`: a deferred load that is resolved at the end); `zz` is bound nowhere. -/
+def exProgC : List Stmt :=
+  [.located 1 (.import_ [⟨"pa".toList, none⟩]),
+   .located 2 (.funcDef "f".toList (.mk [.mk "a".toList none] [] none [] [] none)
+      [.located 3 (.assign [.name "t".toList] (.attr (.name "pa".toList) "m1".toList)),
+       .located 4 (.return_ (some (.tuple [.name "t".toList, .name "late".toList, .name "zz".toList, .name "a".toList])))]
+      [] none),
+   .located 5 (.assign [.name "late".toList] (.name "_K".toList))]
+def exCallsC : List Stmt := [.located 6 (.expr (.call (.name "f".toList) [.name "late".toList]))]
+example : fragC true exProgC = true := by decide
+example : exCallsC.all (fragCall true) = true := by decide
+example : exBuiltins.isClass = false := rfl
+example : (mkState exBuiltins exNs).funcs = [] := rfl
+example : (runProgram 100 exProgC exCallsC (mkState exBuiltins exNs)).1.ne = ["zz".toList] := by decide +kernel
+example : findMissing {} exBuiltins exNs (exProgC ++ exCallsC) = ["zz".toList] := by decide +kernel
+/-- precision: without the read of `zz` the run completes and nothing is reported; with an extra function `g` that is
+    never called and reads `zz`, the run completes and `zz` (unbound at the end) is reported -/
+def exProgC2 : List Stmt :=
+  [.located 1 (.import_ [⟨"pa".toList, none⟩]),
+   .located 2 (.funcDef "f".toList (.mk [.mk "a".toList none] [] none [] [] none)
+      [.located 3 (.assign [.name "t".toList] (.attr (.name "pa".toList) "m1".toList)),
+       .located 4 (.return_ (some (.tuple [.name "t".toList, .name "late".toList, .name "a".toList])))]
+      [] none),
+   .located 5 (.assign [.name "late".toList] (.name "_K".toList))]
+def exProgC3 : List Stmt := exProgC2 ++
+  [.located 6 (.funcDef "g".toList (.mk [] [] none [] [] none) [.located 7 (.return_ (some (.name "zz".toList)))] [] none)]
+def exCallsC2 : List Stmt := [.located 8 (.expr (.call (.name "f".toList) [.name "late".toList]))]
+example : fragC true exProgC3 = true ∧ exProgC3.all plainStmtB = true ∧ exCallsC2.all (fragCall true) = true ∧
+    exCallsC2.all plainCall = true := by decide
+example : isOk (runProgram 100 exProgC2 exCallsC2 (mkState exBuiltins exNs)).2 = true := by decide +kernel
+example : findMissing {} exBuiltins exNs (exProgC2 ++ exCallsC2) = [] := by decide +kernel
+example : isOk (runProgram 100 exProgC3 exCallsC2 (mkState exBuiltins exNs)).2 = true := by decide +kernel
+example : findMissing {} exBuiltins exNs (exProgC3 ++ exCallsC2) = ["zz".toList] := by decide +kernel
+/-- without the late binding the deferred load of `late` is reported, and the run raises NameError on it -/
+example : (runProgram 100 (exProgC.take 2) [.located 6 (.expr (.call (.name "f".toList) [.name "a".toList]))]
+    (mkState exBuiltins exNs)).1.ne = ["late".toList] := by decide +kernel
+example : findMissing {} exBuiltins exNs (exProgC.take 2 ++ [.located 6 (.expr (.call (.name "f".toList) [.name "a".toList]))])
+    = ["late".toList, "zz".toList] := by decide +kernel
 end Example
 
 /-! ### Witness: the full-strength statement fails on the unchanged code (D9)
@@ -220,5 +406,151 @@ example : (runProgram 200 wOK wOKcalls wS).1.ne = ["missing2".toList] := by deci
 example : soundOn wB [{}] wS 200 wOK wOKcalls = true := by decide
 example : outsideFamilies "missing2".toList (wOK ++ wOKcalls) = true := by decide
 end Witness
+
+/-! ### C02 clause: an import whose binding is read is not reported unused (`Pfb.C05.Unused`) -/
+/-! ### fragment E: examples and the excluded sub-cases -/
+section FragE
+def fxE : Fixes := { augLoad := true, delDotted := true }
+/-- `import pa.s1` ; `x = pa.s1.m1` ; `x += _K` ; `del x` ; `del pa` ; `y = x` -/
+def exProgE : List Stmt :=
+  [.located 1 (.import_ [⟨"pa.s1".toList, none⟩]),
+   .located 2 (.assign [.name "x".toList] (.attr (.attr (.name "pa".toList) "s1".toList) "m1".toList)),
+   .located 3 (.augAssign (.name "x".toList) (.name "_K".toList)),
+   .located 4 (.delete [.name "x".toList]),
+   .located 5 (.delete [.name "pa".toList]),
+   .located 6 (.assign [.name "y".toList] (.name "x".toList))]
+example : fragE true exProgE = true ∧ delBound [] exProgE = true ∧ hasAug exProgE = true ∧ hasDel exProgE = true := by decide
+example : delNames exProgE = ["x".toList, "pa".toList] := by decide
+example : (runProgram 100 exProgE [] (mkState exBuiltins exNs)).1.ne = ["x".toList] := by decide +kernel
+example : findMissingFx fxE {} exBuiltins exNs exProgE = ["x".toList] := by decide +kernel
+/-- the dotted keys go with the deleted head: `import pa.s1` ; `del pa` ; `pa.s1.m1` reports `pa.s1.m1` -/
+def exProgE2 : List Stmt :=
+  [.located 1 (.import_ [⟨"pa.s1".toList, none⟩]), .located 2 (.delete [.name "pa".toList]),
+   .located 3 (.expr (.attr (.attr (.name "pa".toList) "s1".toList) "m1".toList))]
+example : (runProgram 100 exProgE2 [] (mkState exBuiltins exNs)).1.ne = ["pa".toList] := by decide +kernel
+example : findMissingFx fxE {} exBuiltins exNs exProgE2 = ["pa.s1.m1".toList] := by decide +kernel
+example : isOk (runProgram 100 (exProgE.take 5) [] (mkState exBuiltins exNs)).2 = true := by decide +kernel
+example : (exProgE.take 5).all plainStmtE = true := by decide
+example : findMissingFx fxE {} exBuiltins exNs (exProgE.take 5) = [] := by decide +kernel
+
+/-- **`del` of a name that is not bound** (`delBound` fails): `del y` raises NameError, `visit_Delete` never loads its
+    target, nothing is reported — with every repair. -/
+def wDelUnbound : List Stmt := [.located 1 (.delete [.name "y".toList])]
+theorem witness_del_unbound :
+    fragE false wDelUnbound = true ∧ delBound [] wDelUnbound = false ∧
+    (runProgram 100 wDelUnbound [] wS).1.ne = ["y".toList] ∧ findMissingFx fxE {} wB [{}] wDelUnbound = [] := by decide +kernel
+
+/-- **`del` of a name that a caller namespace binds**: `x = _K` ; `del x` ; `x` with `x` in the caller's namespace.  The run
+    unbinds `x`; the analysis only removes it from its private scope and still sees the caller's binding. -/
+def wDelNs : List Stmt :=
+  [.located 1 (.assign [.name "x".toList] (.name "_K".toList)), .located 2 (.delete [.name "x".toList]),
+   .located 3 (.expr (.name "x".toList))]
+def wDelNsScopes : List Scope := [{ items := [("x".toList, .obj 7)] }]
+theorem witness_del_caller_ns :
+    fragE false wDelNs = true ∧ delBound [] wDelNs = true ∧ boundIn (wDelNsScopes.headD {}) "x".toList = true ∧
+    (runProgram 100 wDelNs [] (mkState wB wDelNsScopes)).1.ne = ["x".toList] ∧
+    findMissingFx fxE {} wB wDelNsScopes wDelNs = [] := by decide +kernel
+
+/-- **`del` of the head of a dotted import without the `delDotted` repair** (the tree before 1b2307d):
+    `import pa.s1` ; `del pa` ; `pa.s1.m1` — the key `pa.s1` stays bound, nothing is reported, the run raises NameError. -/
+theorem witness_del_dotted :
+    fragE true exProgE2 = true ∧ delBound [] exProgE2 = true ∧
+    (runProgram 100 exProgE2 [] (mkState exBuiltins exNs)).1.ne = ["pa".toList] ∧
+    findMissingFx { augLoad := true } {} exBuiltins exNs exProgE2 = [] := by decide +kernel
+
+/-- **`del` after a function that reads the name** (why fragment E has no function definitions):
+    `x = _K` ; `def f(): return x` ; `del x` — then `f()`.  The read in the body is resolved when the body is visited
+    (`x` bound: no deferred entry), the later `del` is not seen by it. -/
+def wDelDef : List Stmt :=
+  [.located 1 (.assign [.name "x".toList] (.name "_K".toList)),
+   .located 2 (.funcDef "f".toList (.mk [] [] none [] [] none) [.located 3 (.return_ (some (.name "x".toList)))] [] none),
+   .located 4 (.delete [.name "x".toList])]
+def wDelDefCalls : List Stmt := [.located 5 (.expr (.call (.name "f".toList) []))]
+theorem witness_del_after_def :
+    (runProgram 100 wDelDef wDelDefCalls wS).1.ne = ["x".toList] ∧
+    findMissingFx fxE {} wB [{}] (wDelDef ++ wDelDefCalls) = [] := by decide +kernel
+end FragE
+
+section UnusedExamples
+def uB : Scope := { items := [("_K".toList, .none), ("len".toList, .none)] }
+def uS : XState := { builtins := ["_K".toList, "len".toList, "__file__".toList] }
+/-- `import pa` ; `import pb.s1 as q` ; `from pa import m1, m2 as y` ; `x = (pa.m1, y)` ; `pa = _K` ; `z = pa` -/
+def uProg : List Stmt :=
+  [.located 1 (.import_ [⟨"pa".toList, none⟩]),
+   .located 2 (.import_ [⟨"pb.s1".toList, some "q".toList⟩]),
+   .located 3 (.importFrom "pa".toList [⟨"m1".toList, none⟩, ⟨"m2".toList, some "y".toList⟩]),
+   .located 4 (.assign [.name "x".toList] (.tuple [.attr (.name "pa".toList) "m1".toList, .name "y".toList])),
+   .located 5 (.assign [.name "pa".toList] .const),
+   .located 6 (.assign [.name "z".toList] (.name "pa".toList))]
+example : fragB true uProg = true := by decide
+example : uProg.all simpleImportStmt = true := by decide
+example : linesOK [] uProg = true := by decide
+example : builtinsPlain uB = true := by decide
+example : AgreeU uS := ⟨rfl, rfl, rfl⟩
+/-- the run reads `pa` (line 1, alias 0) and `y` (line 3, alias 1); the later read of `pa` resolves to the assignment -/
+example : (runProgram 100 uProg [] uS).1.usedImps = [(1, 0), (3, 1)] := by decide +kernel
+/-- reported unused: `import pb.s1 as q` and `from pa import m1` -/
+example : findUnused {} uB uProg = [(2, 0), (3, 0)] := by decide +kernel
+
+/-- **Witness that the clause fails for re-bound heads of dotted imports** (hence `simpleImportStmt`):
+    `import pa.s1` ; `import pa.s2` ; `pa.s1.m1`.  The read of `pa` resolves to the binding (re)created by line 2, whose
+    checker is only reachable under the keys `pa` and `pa.s2`; the longest bound prefix of `pa.s1.m1` is `pa.s1` (line 1),
+    so line 2 is reported unused.  (Removing it is harmless: line 1 binds `pa` to the same package.) -/
+def wDots : List Stmt :=
+  [.located 1 (.import_ [⟨"pa.s1".toList, none⟩]), .located 2 (.import_ [⟨"pa.s2".toList, none⟩]),
+   .located 3 (.expr (.attr (.attr (.name "pa".toList) "s1".toList) "m1".toList))]
+theorem witness_dotted_rebind :
+    fragB true wDots = true ∧ wDots.all simpleImportStmt = false ∧
+    (2, 0) ∈ (runProgram 100 wDots [] uS).1.usedImps ∧ (2, 0) ∈ findUnused {} uB wDots := by decide +kernel
+
+/-- **C02_read_import_not_unused_fragC.**  The clause on fragment C (module-level functions with straight-line bodies,
+    called only after the last module-level statement): if the reference run — at module level, in the arguments of a
+    trailing call, or inside a called function body — performs a successful read of a global whose current binding was
+    created by alias `idx` of the import statement on line `l`, then `(l, idx)` is not reported unused.  Reads in function
+    bodies are marked when the body is visited (twice) and, against a clone of the body scope, when the module is
+    complete (`_deferred_load_checks` / `_deferred_use_marks`).  Beyond the hypotheses of the fragment-B theorem: no import
+    alias binds the name of a function defined by the program (`namesApart`; see `witness_import_rebinds_def`), the
+    builtins namespace is not a class scope, the run starts without function objects. -/
+theorem C02_read_import_not_unused_fragC (fx : Fixes) (builtins : Scope) (prog calls : List Stmt) (s0 : XState) (fuel : Nat)
+    (D : Bool) (hfr : fragC D prog = true) (hcalls : calls.all (fragCall D) = true)
+    (hsi : prog.all simpleImportStmt = true) (hl : linesOK [] prog = true)
+    (hna : namesApart (defNames prog) prog = true)
+    (hb : builtinsPlain builtins = true) (hbc : builtins.isClass = false) (h0 : AgreeU s0) (hf : s0.funcs = []) :
+    ∀ i ∈ (runProgram fuel prog calls s0).1.usedImps, i ∉ findUnused fx builtins (prog ++ calls) :=
+  read_not_unused_fragC fx D builtins prog calls s0 fuel hfr hcalls hsi hl hna hb hbc h0 hf
+
+/-- fragment C: `import pa` ; `from pb import m1 as q, m2` ; `def f(a):` / ` t = pa.m1` / ` return (t, q, a)` ; `import pb as pa`
+    — then `f(q)`.  When `f` runs, `pa` is the binding of line 6 and `q` that of line 2. -/
+def uProgC : List Stmt :=
+  [.located 1 (.import_ [⟨"pa".toList, none⟩]),
+   .located 2 (.importFrom "pb".toList [⟨"m1".toList, some "q".toList⟩, ⟨"m2".toList, none⟩]),
+   .located 3 (.funcDef "f".toList (.mk [.mk "a".toList none] [] none [] [] none)
+      [.located 4 (.assign [.name "t".toList] (.attr (.name "pa".toList) "m1".toList)),
+       .located 5 (.return_ (some (.tuple [.name "t".toList, .name "q".toList, .name "a".toList])))]
+      [] none),
+   .located 6 (.import_ [⟨"pb".toList, some "pa".toList⟩])]
+def uCallsC : List Stmt := [.located 7 (.expr (.call (.name "f".toList) [.name "q".toList]))]
+example : fragC true uProgC = true ∧ uCallsC.all (fragCall true) = true ∧ uProgC.all simpleImportStmt = true ∧
+    linesOK [] uProgC = true ∧ namesApart (defNames uProgC) uProgC = true := by decide
+example : (runProgram 100 uProgC uCallsC uS).1.usedImps = [(2, 0), (6, 0)] := by decide +kernel
+/-- reported unused: only `m2` of line 2 (`import pa` of line 1 is never read at run time, but visiting the body of `f`
+    marks it: the analysis errs on the side of keeping imports) -/
+example : findUnused {} uB (uProgC ++ uCallsC) = [(2, 1)] := by decide +kernel
+
+/-- **Witness that the clause fails when an import re-binds the name of a function** (hence `namesApart`):
+    `def f():` / ` return f` ; `g = f` ; `import pa as f` — then `g()`.  The body reads the global `f`, which is the module
+    when `g` runs; the deferred entry looks `f` up in the clone of the body scope, where the function's own name is bound,
+    and never reaches the import: line 3 is reported unused although the run reads it. -/
+def wDefName : List Stmt :=
+  [.located 1 (.funcDef "f".toList (.mk [] [] none [] [] none) [.located 2 (.return_ (some (.name "f".toList)))] [] none),
+   .located 3 (.assign [.name "g".toList] (.name "f".toList)),
+   .located 4 (.import_ [⟨"pa".toList, some "f".toList⟩])]
+def wDefNameCalls : List Stmt := [.located 5 (.expr (.call (.name "g".toList) []))]
+theorem witness_import_rebinds_def :
+    fragC false wDefName = true ∧ wDefNameCalls.all (fragCall false) = true ∧ wDefName.all simpleImportStmt = true ∧
+    linesOK [] wDefName = true ∧ namesApart (defNames wDefName) wDefName = false ∧
+    (4, 0) ∈ (runProgram 100 wDefName wDefNameCalls uS).1.usedImps ∧
+    (4, 0) ∈ findUnused {} uB (wDefName ++ wDefNameCalls) := by decide +kernel
+end UnusedExamples
 
 end Pfb.C05
